@@ -57,20 +57,26 @@ theorem C15_balanced (members : List Member) (tp : Dict Str (List Int)) (asg : A
   balanced_perMember (wellFormed_iff.mp hwf).1 h
 
 /-- The assignment does not depend on the order in which the members are listed: the leader
-    computes the very same map (or the very same exception), every member is handed the same
-    partitions, and the encoded list is the same up to that reordering. -/
+    computes the very same map (or the very same exception); whatever the two runs return, every
+    member is handed the same partitions in both (the monitor `sameAssignment` that the harness
+    evaluates on two runs of the real code); and the encoded list is the same up to that reordering. -/
 theorem C15_perm_invariant (members members' : List Member) (tp : Dict Str (List Int))
     (hn : (members.map (·.1)).Nodup) (hp : members'.Perm members) :
     roundRobin (memberMetadata members') tp = roundRobin (memberMetadata members) tp ∧
-    (∀ asg, sameAssignment (perMember asg members) (perMember asg members') = true) ∧
+    (∀ asg asg', roundRobin (memberMetadata members) tp = .ok asg → roundRobin (memberMetadata members') tp = .ok asg' →
+      sameAssignment (perMember asg members) (perMember asg' members') = true) ∧
     (∀ encs, generateAssignments members tp = .ok encs →
       ∃ encs', generateAssignments members' tp = .ok encs' ∧ encs'.Perm encs) := by
   have hrr := roundRobin_perm hn hp tp
-  refine ⟨hrr, fun asg => sameAssignment_perMember asg hn hp, ?_⟩
-  intro encs h
-  obtain ⟨asg, h1, h2⟩ := generateAssignments_ok h
-  obtain ⟨encs', h3, h4⟩ := encodeEach_perm asg hp encs h2
-  exact ⟨encs', by simp only [generateAssignments, hrr, h1, h3], h4⟩
+  refine ⟨hrr, ?_, ?_⟩
+  · intro asg asg' h h'
+    rw [hrr, h] at h'
+    obtain rfl := Except.ok.inj h'
+    exact sameAssignment_perMember asg hn hp
+  · intro encs h
+    obtain ⟨asg, h1, h2⟩ := generateAssignments_ok h
+    obtain ⟨encs', h3, h4⟩ := encodeEach_perm asg hp encs h2
+    exact ⟨encs', by simp only [generateAssignments, hrr, h1, h3], h4⟩
 
 /-- The byte-level codec on its own, under explicit range hypotheses (`encodable`: fewer than 2^31
     topics, topic names ASCII and at most 32767 characters, fewer than 2^31 partitions per topic,
@@ -111,12 +117,12 @@ theorem C15_end_to_end (members : List Member) (tp : Dict Str (List Int)) (encs 
   exact ⟨_, h2, e3, e1, e2, C15_only_subscribed members tp asg hwf h1, C15_balanced members tp asg hwf h1⟩
 
 /-- Under explicit range hypotheses on the leader's input — topic names ASCII and at most 32767
-    characters, partition ids int32 (`TpInRange`), fewer than 2^31 partitions of subscribed topics in
-    total — the encoding step of `generate_assignments` cannot raise: whenever the round-robin step
+    characters, partition ids int32, for the subscribed topics (`TpInRange`), fewer than 2^31
+    partitions of subscribed topics in total — the encoding step of `generate_assignments` cannot raise: whenever the round-robin step
     produces an assignment, every listed member gets its bytes, decodes exactly its own map from
     them, and what the members decode satisfies every demand of C15. -/
 theorem C15_in_range_total (members : List Member) (tp : Dict Str (List Int)) (asg : Asg)
-    (hwf : wellFormed members tp = true) (hr : TpInRange tp)
+    (hwf : wellFormed members tp = true) (hr : TpInRange (allTopics (memberMetadata members)) tp)
     (hcount : (atpOf tp (allTopics (memberMetadata members))).length < 2147483648)
     (h : roundRobin (memberMetadata members) tp = .ok asg) :
     ∃ encs, generateAssignments members tp = .ok encs ∧ observe encs = some (perMember asg members) ∧
@@ -150,17 +156,63 @@ theorem C15_wire_members (ms : List Member) (w : List (Str × Bytes)) (tp : Dict
     (h : wireOf ms = .ok w) : generateAssignmentsB w tp = generateAssignments ms tp :=
   generateAssignmentsB_wireOf h tp
 
-/-- The leader's two calls in `_join_and_sync`: the first (`topic_partitions={}`) either hits the
-    assertion (nobody subscribed to anything) or asks for exactly the subscribed topics; if
-    `_load_topic_partitions` answers with an entry for every topic it was asked for, the second call
-    cannot ask again: it is the round-robin assignment over the loaded map, encoded per member. -/
-theorem C15_leader_glue (w : List (Str × Bytes)) (ms : List Member) (hd : decodeMembers w = .ok ms)
-    (load : List Str → Dict Str (List Int)) (hload : ∀ ts, ∀ t ∈ ts, ∃ ps, dget t (load ts) = some ps) :
+/-- Every way the leader's two calls in `_join_and_sync` can end, for an ARBITRARY answer of
+    `_load_topic_partitions` (no contract assumed): the first call (`topic_partitions={}`) either
+    hits the assertion (nobody subscribed to anything) or asks for exactly the subscribed topics;
+    then either the answer lacks a subscribed topic and the second call raises
+    `_NeedTopicPartitions` again — outside the `try`, so the exception leaves `_join_and_sync`, no
+    SyncGroup is sent and (it not being a `KafkaError`) nothing is rescheduled — or the second call
+    is the round-robin assignment over the loaded map, encoded per member. -/
+theorem C15_leader_outcomes (w : List (Str × Bytes)) (ms : List Member) (hd : decodeMembers w = .ok ms)
+    (load : List Str → Dict Str (List Int)) :
     (allTopics (memberMetadata ms) = [] ∧ leaderAssign w load = .error .assertion) ∨
     (allTopics (memberMetadata ms) ≠ [] ∧
+      (∃ t ∈ allTopics (memberMetadata ms), dget t (load (sortBy strLe (allTopics (memberMetadata ms)))) = none) ∧
+      leaderAssign w load = .error (.need (sortBy strLe (allTopics (memberMetadata ms))))) ∨
+    (allTopics (memberMetadata ms) ≠ [] ∧
+      (∀ t ∈ allTopics (memberMetadata ms), ∃ ps, dget t (load (sortBy strLe (allTopics (memberMetadata ms)))) = some ps) ∧
       ∃ asg, roundRobin (memberMetadata ms) (load (sortBy strLe (allTopics (memberMetadata ms)))) = .ok asg ∧
         leaderAssign w load = encodeEach asg ms) :=
-  leaderAssign_spec hd load hload
+  leaderAssign_outcomes hd load
+
+/-- `KafkaClient._load_topic_partitions` keeps its promise (since repo commit 9b87dea): whatever the
+    successive metadata replies are — topics omitted, in error, without partitions — when it fires
+    its snapshot has an entry with at least one partition for every topic that was asked for. -/
+theorem C15_loader_contract (asked : List Str) (replies : List MetaReply) (snap : Dict Str (List Int)) (n : Nat)
+    (h : loadTopicPartitions asked replies = some (snap, n)) : loadCovers asked snap = true :=
+  loadTopicPartitions_covers h
+
+/-- The glue composed with the client's loader: when `_load_topic_partitions` answers (for any
+    sequence of replies), the second call cannot ask again — the leader obtains the partition lists
+    of every subscribed topic before assigning. -/
+theorem C15_leader_glue (w : List (Str × Bytes)) (ms : List Member) (hd : decodeMembers w = .ok ms)
+    (replies : List MetaReply) (snap : Dict Str (List Int)) (n : Nat) (load : List Str → Dict Str (List Int))
+    (hl : loadTopicPartitions (sortBy strLe (allTopics (memberMetadata ms))) replies = some (snap, n))
+    (hload : load (sortBy strLe (allTopics (memberMetadata ms))) = snap) :
+    (allTopics (memberMetadata ms) = [] ∧ leaderAssign w load = .error .assertion) ∨
+    (allTopics (memberMetadata ms) ≠ [] ∧
+      ∃ asg, roundRobin (memberMetadata ms) snap = .ok asg ∧ leaderAssign w load = encodeEach asg ms) := by
+  rcases leaderAssign_outcomes hd load with h | ⟨-, ⟨t, ht, hnone⟩, -⟩ | ⟨h0, -, asg, h1, h2⟩
+  · exact Or.inl h
+  · exfalso
+    have hc := loadTopicPartitions_covers hl
+    unfold loadCovers at hc
+    rw [List.all_eq_true] at hc
+    have := hc t ((mem_sortBy strLe).mpr ht)
+    rw [hload] at hnone
+    simp [hnone] at this
+  · rw [hload] at h1
+    exact Or.inr ⟨h0, asg, h1, h2⟩
+
+/-- The subscription encoder under explicit range hypotheses (`subsEncodable`: fewer than 2^31
+    subscriptions, topic names made of Unicode scalar values and at most 32767 bytes of UTF-8):
+    `join_group_protocols(subscriptions)` does not raise, and the leader's first loop decodes
+    exactly these subscriptions from it. -/
+theorem C15_metadata_total (subs : List Str) (h : subsEncodable subs = true) :
+    ∃ bs, joinGroupMetadata subs = .ok bs ∧
+      decodeMetadata bs = .ok (Afkak.Consts.asgMmEncodedVersion, subs, some []) := by
+  obtain ⟨bs, hbs⟩ := joinGroupMetadata_ok h
+  exact ⟨bs, hbs, decodeMetadata_encode hbs⟩
 
 /-! ## Non-vacuity: concrete inputs meeting the hypotheses, and monitors that can fail -/
 
@@ -177,19 +229,20 @@ example : encodable [([116, 49], [0, 2147483647, -2147483648]), ([116], [])] = t
     (keys ([([116, 49], [0, 2147483647, -2147483648]), ([116], [])] : Dict Str (List Int))).Nodup := by decide
 example : encodable [([233], [0])] = false ∧ encodable [([116], [2147483648])] = false := by decide
 example : exMembers.reverse.Perm exMembers := List.reverse_perm _
-example : TpInRange exTp ∧ (atpOf exTp (allTopics (memberMetadata exMembers))).length < 2147483648 := by decide
+example : TpInRange (allTopics (memberMetadata exMembers)) exTp ∧
+    (atpOf exTp (allTopics (memberMetadata exMembers))).length < 2147483648 := by decide
 example : (wireOf exMembers).toOption.isSome = true := by decide +kernel
-example : ∀ (ts : List Str), ∀ t ∈ ts, ∃ ps, dget t ((fun (ts : List Str) => ts.map (fun t => (t, ([0, 1] : List Int)))) ts) = some ps := by
-  intro ts t ht
-  induction ts with
-  | nil => simp at ht
-  | cons a ts ih =>
-    by_cases h : a = t
-    · exact ⟨[0, 1], by simp [dget, h]⟩
-    · rcases List.mem_cons.mp ht with rfl | ht
-      · exact absurd rfl h
-      · obtain ⟨ps, hps⟩ := ih ht
-        exact ⟨ps, by simp [dget, h, hps]⟩
+-- the loader: a reply omitting t2, one with t2 in error, then a complete one (3 requests)
+example : loadTopicPartitions [[116, 49], [116, 50]]
+    [[([116, 49], (0, [1, 0]))], [([116, 49], (0, [1, 0])), ([116, 50], (5, []))],
+     [([116, 50], (0, [2, 0, 1])), ([116, 49], (0, [1, 0]))]]
+    = some ([([116, 49], [0, 1]), ([116, 50], [0, 1, 2])], 3) := by decide +kernel
+example : loadCovers [[116, 49], [116, 50]] [([116, 49], [0, 1])] = false := by decide
+-- the escaping branch of `C15_leader_outcomes` occurs: the loader's answer lacks t2
+example : (match (wireOf [([98], [[116, 49], [116, 50]])]).toOption.map (fun w => leaderAssign w (fun _ => [([116, 49], [0])])) with
+    | some (.error (.need ts)) => ts == [[116, 49], [116, 50]]
+    | _ => false) = true := by decide +kernel
+example : subsEncodable [[116, 49], [0x1F600, 0xE9], []] = true ∧ subsEncodable [[0xD800]] = false := by decide
 example : utf8Encode [0x1F600, 0xE9, 0x41] = .ok [0xF0, 0x9F, 0x98, 0x80, 0xC3, 0xA9, 0x41] := by rfl
 -- the need / assertion outcomes of `C15_terminates` occur
 example : roundRobin (memberMetadata exMembers) [] = .error (.need [[116, 49], [116, 50], [116, 51]]) := by rfl
@@ -217,7 +270,10 @@ C15_in_range_total
 C15_metadata_roundtrip
 C15_utf8
 C15_wire_members
+C15_leader_outcomes
+C15_loader_contract
 C15_leader_glue
+C15_metadata_total
 -/
 /- OPEN_STATEMENTS
 -/
